@@ -66,6 +66,7 @@ type Op struct {
 	KeyCnd string            `json:"keycond,omitempty"`
 	NoKC   bool              `json:"nokc,omitempty"` // Query without any KeyConditionExpression field
 	Filter string            `json:"filter,omitempty"`
+	Proj   string            `json:"proj,omitempty"` // ProjectionExpression (get, query, scan)
 	Names  map[string]string `json:"names,omitempty"`
 	Values val.Item          `json:"values,omitempty"`
 	Index  string            `json:"index,omitempty"`
